@@ -56,7 +56,14 @@ Classify(k, kind, got, F(_)) ==
 
 Init == l = 0 /\ st = [none |-> TRUE]
 
-TraceInit(e) == e.ev = "Init" /\ st' = e.state
+\* start of a history; when the genesis state was upgraded in place at slot 0 (fork epochs equal to 0) the
+\* event carries the pre-upgrade state and the upgrade is checked like a Slots event
+TraceInit(e, k) ==
+    /\ e.ev = "Init"
+    /\ IF "genesis_pre" \in DOMAIN e
+         THEN Classify(k, "Slots", e.state, LAMBDA dv : UpgradeMaybe(e.genesis_pre, e.genesis_oracle))
+         ELSE TRUE
+    /\ st' = e.state
 
 TraceSlots(e, k) ==
     /\ e.ev = "Slots"
@@ -108,7 +115,7 @@ TraceBlock(e, k) ==
 
 Next ==
     /\ l < Len(Trace)
-    /\ LET e == Trace[l + 1] IN TraceInit(e) \/ TraceSlots(e, l + 1) \/ TraceProbe(e, l + 1) \/ TraceBlock(e, l + 1)
+    /\ LET e == Trace[l + 1] IN TraceInit(e, l + 1) \/ TraceSlots(e, l + 1) \/ TraceProbe(e, l + 1) \/ TraceBlock(e, l + 1)
     /\ l' = l + 1
 
 Spec == Init /\ [][Next]_vars
